@@ -4,6 +4,8 @@ from __future__ import annotations
 import json
 import random
 
+import lsst.daf.relation as dr
+
 import core
 import enc
 import gen
@@ -122,6 +124,39 @@ def redeclared_cases(rng, n):
     return out
 
 
+def mismatched_chain_cases():
+    """Chains whose operands declare different column sets, in either order (subset, superset, overlap, disjoint, zero
+    columns): the documented ColumnError is C20's concern, but whatever IS accepted must declare the columns its rows have."""
+    from lsst.daf.relation import iteration
+    out = []
+    a, b, c = K(1), K(2), K(3)
+    eng = iteration.Engine(name="mm")
+    def leaf(name, cols, nrows=2):
+        return eng.make_leaf(set(cols), payload=iteration.RowSequence([{x: i for x in cols} for i in range(nrows)]), name=name)
+    shapes = [[a], [a, b], [b], [a, b, c], []]
+    k = 0
+    for lc in shapes:
+        for rc in shapes:
+            if lc == rc:
+                continue
+            k += 1
+            try:
+                rel = leaf(f"l{k}", lc).chain(leaf(f"r{k}", rc))
+                if lc:
+                    rel2 = rel.with_only_columns(set(rel.columns))       # elided when nothing is to be dropped
+                else:
+                    rel2 = rel
+                rows = [dict(r) for r in eng.execute(rel2)]
+            except dr.RelationalAlgebraError:
+                continue
+            coq = (f"DCase {cset(sorted(rel2.columns))} {cz(rel2.min_rows)} {coptz(rel2.max_rows)} {cbool(bool(rel2.is_join_identity))} "
+                   f"{enc.crows(rows)}")
+            out.append({"json": {"history": f"chain of a relation with columns {[str(x) for x in lc]} and one with {[str(x) for x in rc]} was accepted",
+                                 "declared_columns": [str(x) for x in sorted(rel2.columns)], "rows": jsonable(rows)},
+                        "coq": coq, "nontrivial": True, "key": f"mismatch{k}"})
+    return out
+
+
 def sql_cases(rng, n):
     """SQL-engine programs (joins with shared key columns and duplicate rows, chains, every unary operation) executed on
     SQLite: the declared columns / row bounds / join-identity flag against the rows the database returns."""
@@ -186,7 +221,7 @@ def run(ctx):
     hcases = history_cases(rng, 200 if ctx.tier == "quick" else 4000)
     hsumm = core.judge(ctx, hcases, HDR, "check_decl", prefix="cases_C06h",
                        bits={4: "rows of a processed-extended-processed tree contradict its declared columns / row bounds / flags"})
-    rcases = redeclared_cases(rng, 60 if ctx.tier == "quick" else 1000)
+    rcases = redeclared_cases(rng, 60 if ctx.tier == "quick" else 1000) + mismatched_chain_cases()
     rsumm = core.judge(ctx, rcases, HDR, "check_decl", prefix="cases_C06r",
                        bits={4: "after a table was described again under the same name, a relation built on the new leaf declares "
                                 "bounds its rows contradict"})
